@@ -437,6 +437,26 @@ def _snap(obj):
     return snapshot.snap_project(obj) if isinstance(obj, Project) else snapshot.snap_synth(obj)
 
 
+def mutate_live(root, rng, n, prefer=()):
+    """Apply up to n catalogue edits in place to a live Project/Synth (used by C02/C16 for 'save, edit, save again')."""
+    S = _snap(root)
+    edits = catalogue(S, gen.Gen(rng))
+    rng.shuffle(edits)
+    edits.sort(key=lambda e: 0 if any(p in e.path for p in prefer) else 1)
+    applied = []
+    for e in edits:
+        if len(applied) >= n:
+            break
+        if e.coupled:
+            continue
+        try:
+            e.apply(root)
+        except Exception:
+            continue
+        applied.append(e.path)
+    return applied
+
+
 def run_file(res, origin, raw, desc, rng, per_file):
     try:
         o0 = workload.load(raw)
@@ -519,6 +539,45 @@ def run_file(res, origin, raw, desc, rng, per_file):
                           f"{origin}: edited {e.path} = {want!r}; after save/load {first[0]} is {first[2]} (object before saving: {first[1]})", case)
 
 
+def handcrafted_files():
+    """Legal but unusual files that random generation reaches only occasionally."""
+    import rv.api as api
+    out = []
+    # a MultiCtl whose links carry mappings with controller numbers beyond the targets' controllers, 0, and valid ones
+    p = api.Project()
+    amps = [p.new_module(api.m.Amplifier) for _ in range(4)]
+    mc = p.new_module(api.m.MultiCtl, mappings=[(0, 0x8000, 40, 0, 0, 0, 0, 0), (0, 0x8000, 0, 0, 0, 0, 0, 0),
+                                                (0, 0x8000, 1, 0, 0, 0, 0, 0), (0x8000, 0, 0xFFFFFFFF, 0, 0, 0, 0, 0)])
+    mc >> amps
+    amps[0] >> p.output
+    out.append(("multictl-odd-mappings", p.read()))
+    # a project with interior empty module and pattern positions, a clone of a clone source, self link
+    p = api.Project()
+    a = p.new_module(api.m.Generator)
+    p.attach_module(None)
+    b = api.m.Filter()
+    p.attach_module(b, loading=True)
+    a >> b >> p.output
+    b >> b
+    p.attach_pattern(api.Pattern(tracks=2, lines=3))
+    p.attach_pattern(None)
+    p.attach_pattern(api.PatternClone(source=0))
+    out.append(("gaps-and-self-link", p.read()))
+    # MetaModule in MetaModule with a sampler carrying an effect
+    inner = api.Project()
+    smp = inner.new_module(api.m.Sampler)
+    smp.effect = api.Synth(api.m.Echo())
+    s = smp.Sample()
+    s.data, s.format, s.channels = bytes(range(16)), smp.Format.int8, smp.Channels.mono
+    smp.samples[127] = s
+    mid = api.Project()
+    mid.new_module(api.m.MetaModule, project=inner, user_defined_controllers=2)
+    outer = api.Project()
+    outer.new_module(api.m.MetaModule, project=mid, user_defined_controllers=96)
+    out.append(("nested-metamodule-sampler-slot127", outer.read()))
+    return out
+
+
 def run_shard(spec_, res):
     monitors.install(snapshot_fn=_snap)
     rng = random.Random(env.shard_seed(spec_["shard"]))
@@ -542,6 +601,9 @@ def run_shard(spec_, res):
             res.count("generated_unsaveable")
             continue
         run_file(res, f"generated:{c.kind}#{i}", raw, c.describe(), rng, spec_["per_file"])
+    if spec_["shard"] == 0:
+        for label, raw in handcrafted_files():
+            run_file(res, f"handcrafted:{label}", raw, {"handcrafted": label}, rng, spec_["per_file"])
     for name, msg in monitors.take_failures():
         res.violation(f"C06:ambient:{name}", msg, {"monitor": name})
     if spec_["shard"] == 0:
